@@ -161,12 +161,12 @@ Proof.
 Qed.
 
 (* -- primitive 3: a new call -- *)
-Lemma VInv_new_call w src dst rid q : VInv w -> VInv (new_call w src dst rid q).
+Lemma VInv_new_call w src dst rid g q : VInv w -> VInv (new_call w src dst rid g q).
 Proof.
   intros [HI ND FR PE GR UQ].
-  set (nc := {| c_id := w_next_call w; c_src := src; c_dst := dst; c_round := rid; c_req := q; c_resp := None; c_state := CPending |}).
-  assert (Hcalls : w_calls (new_call w src dst rid q) = w_calls w ++ [nc]) by reflexivity.
-  assert (Hsub : forall c', In c' (w_calls (new_call w src dst rid q)) -> In c' (w_calls w) \/ c' = nc).
+  set (nc := {| c_id := w_next_call w; c_src := src; c_dst := dst; c_round := rid; c_fgen := g; c_req := q; c_resp := None; c_state := CPending |}).
+  assert (Hcalls : w_calls (new_call w src dst rid g q) = w_calls w ++ [nc]) by reflexivity.
+  assert (Hsub : forall c', In c' (w_calls (new_call w src dst rid g q)) -> In c' (w_calls w) \/ c' = nc).
   { intros c' H. rewrite Hcalls in H. apply in_app_or in H. destruct H as [H|[<-|[]]]; auto. }
   assert (Hng : forall t x, ~ granted_real nc t x).
   { intros t x (q0 & p & _ & _ & _ & _ & H & _). discriminate H. }
@@ -174,10 +174,10 @@ Proof.
   - exact HI.
   - rewrite Hcalls, map_app. cbn [map]. apply nodup_snoc; [exact ND|].
     intro Hin. apply in_map_iff in Hin. destruct Hin as (d & Ed & Hd). pose proof (FR d Hd). cbn in Ed. lia.
-  - intros c' H. change (w_next_call (new_call w src dst rid q)) with (N.succ (w_next_call w)).
+  - intros c' H. change (w_next_call (new_call w src dst rid g q)) with (N.succ (w_next_call w)).
     destruct (Hsub c' H) as [H'| ->]; [pose proof (FR c' H'); lia|cbn; lia].
   - intros c' H Hs. destruct (Hsub c' H) as [H'| ->]; [apply PE; assumption|reflexivity].
-  - intros c' t x H Hg. change (get_node (new_call w src dst rid q)) with (get_node w).
+  - intros c' t x H Hg. change (get_node (new_call w src dst rid g q)) with (get_node w).
     destruct (Hsub c' H) as [H'| ->]; [apply GR; assumption|destruct (Hng _ _ Hg)].
   - intros c1 c2 t x y H1 H2 G1 G2 E.
     destruct (Hsub c1 H1) as [H1'| ->]; [|destruct (Hng _ _ G1)].
@@ -277,7 +277,8 @@ Proof. intros G E. rewrite get_set, G. cbn [option_map]. rewrite E, N.eqb_refl. 
 
 Lemma VInv_step_deliver w c : VInv w -> In c (w_calls w) -> c_state c = CPending -> VInv (step_deliver w c false).
 Proof.
-  intros HV Hin Hst. unfold step_deliver. destruct (get_node w (c_dst c)) as [n|] eqn:G; [|exact HV].
+  intros HV Hin Hst. unfold step_deliver. destruct (get_node w (c_dst c)) as [n|] eqn:G.
+  2:{ apply VInv_set_call with (c := c); [exact HV|exact Hin|repeat split|reflexivity|cbn; discriminate]. }
   pose proof (get_node_in _ _ _ G) as [Hn Eid]. pose proof (vi_coh w HV n Hn) as Hc.
   apply get_node_id in G.
   destruct (n_frozen n) eqn:F.
@@ -333,10 +334,10 @@ Proof.
     try exact H0;
     try match goal with
         | |- VInv (set_node w0 (l_rv_reply _ _ _ _ _ _ _)) => apply (VInv_set_node w0 n _ H0 G0), R_S, R_rv_reply, Hc
-        | |- VInv (set_node w0 (l_is_reply _ _ _ _ _)) => apply (VInv_set_node w0 n _ H0 G0), R_S, R_is_reply, Hc
+        | |- VInv (set_node w0 (l_is_reply _ _ _ _ _ _)) => apply (VInv_set_node w0 n _ H0 G0), R_S, R_is_reply, Hc
         end.
-  pose proof (R_ae_reply (w_now w) n (c_round c) (c_dst c) q p Hc) as HR.
-  destruct (l_ae_reply (w_now w) n (c_round c) (c_dst c) q p) as [n1 [isq|]]; cbn [fst] in HR;
+  pose proof (R_ae_reply (w_now w) n (c_round c) (c_dst c) (c_fgen c) q p Hc) as HR.
+  destruct (l_ae_reply (w_now w) n (c_round c) (c_dst c) (c_fgen c) q p) as [n1 [isq|]]; cbn [fst] in HR;
     pose proof (VInv_set_node w0 n n1 H0 G0 (R_S _ _ HR)) as H1; [apply VInv_new_call|]; exact H1.
 Qed.
 
@@ -365,6 +366,7 @@ Proof.
   - apply VInv_drop. apply VInv_on_node; [|exact HV]. intros m _. apply S_crash.
   - apply VInv_on_node; [|exact HV]. intros m _. destruct (role_eqb (n_role m) Shutdown); [apply S_restart|apply S_refl].
   - apply VInv_on_node; [|exact HV]. intros m _. apply Q_S, Q_upd_budget.
+  - apply VInv_on_node; [|exact HV]. intros m _. apply Q_S. qtv.
   - apply VInv_on_node; [|exact HV]. intros m _. apply Q_S. qtv.
   - destruct (get_node w n) as [m|] eqn:G; [|exact HV]. destruct (is_up m); [|exact HV].
     apply VInv_step_task; [eapply get_node_id; exact G|exact HV].
